@@ -80,6 +80,26 @@ func c08Replay(class string, raw json.RawMessage) (bool, string) {
 	if len(c.Requests) == 0 {
 		return false, "no requests"
 	}
+	if c.Kind == "output-sink" {
+		sA, sD := search.New(c.Requests[0].TT), search.New(c.Requests[0].TT)
+		for i, q := range c.Requests {
+			h1, err := newHistory(q.FEN, q.Moves)
+			if err != nil {
+				return false, err.Error()
+			}
+			h2, _ := newHistory(q.FEN, q.Moves)
+			qq := q
+			qq.NoOutput, qq.NoCounters = true, false
+			r1 := runSearch(sA, h1.B, q)
+			r2 := runSearch(sD, h2.B, qq)
+			o1 := c08Observe(sA, &r1)
+			o1.Out = ""
+			if d := o1.diff(c08Observe(sD, &r2), false); d != "" {
+				return true, fmt.Sprintf("search %d: with and without an output sink: %s", i, d)
+			}
+		}
+		return false, "the output sink does not matter"
+	}
 	if c.Kind == "cleared-vs-fresh" {
 		s, fresh := search.New(c.Requests[0].TT), search.New(c.Requests[0].TT)
 		for _, q := range c.Requests[:len(c.Requests)-1] {
@@ -207,7 +227,8 @@ func c08PlayGame(r *ev.Run, g c08Game, judge bool, counters *[4]atomic.Int64) st
 	}
 	hB, _ := newHistory(g.start.FEN, g.start.Moves)
 	hC, _ := newHistory(g.start.FEN, g.start.Moves)
-	sA, sB, sC := search.New(g.tt), search.New(g.tt), search.New(g.tt)
+	sA, sB, sC, sD := search.New(g.tt), search.New(g.tt), search.New(g.tt), search.New(g.tt)
+	hD, _ := newHistory(g.start.FEN, g.start.Moves)
 	var soft, hard []searchReq
 	moves := append([]string(nil), g.start.Moves...)
 	var transcript strings.Builder
@@ -230,6 +251,20 @@ func c08PlayGame(r *ev.Run, g c08Game, judge bool, counters *[4]atomic.Int64) st
 			if d := oA.diff(oC, true); d != "" {
 				r.Fail("twin", c08Case{Kind: "twin", Requests: append([]searchReq(nil), soft...)}, "two instances driven identically differ at search %d of the game from %s: %s", ply, g.start.FEN, d)
 				return transcript.String()
+			}
+			// the sink of the reported lines is not among the things a result may depend on: the same request with
+			// no output attached (datagen's way of calling) on a fourth identically driven instance
+			qq := q
+			qq.NoOutput, qq.NoCounters = true, false
+			rD := runSearch(sD, hD.B, qq)
+			oD := c08Observe(sD, &rD)
+			if !g.noCounters {
+				oq := oA
+				oq.Out = ""
+				if d := oq.diff(oD, false); d != "" {
+					r.Fail("output-sink", c08Case{Kind: "output-sink", Requests: append([]searchReq(nil), soft...)}, "search %d of the game from %s: with and without an output sink the same request gives different results: %s", ply, g.start.FEN, d)
+					return transcript.String()
+				}
 			}
 			if g.hard > 0 {
 				counters[3].Add(1)
@@ -268,6 +303,7 @@ func c08PlayGame(r *ev.Run, g c08Game, judge bool, counters *[4]atomic.Int64) st
 		}
 		hB.play(ms)
 		hC.play(ms)
+		hD.play(ms)
 		moves = append(moves, ms)
 	}
 	if judge && !r.Expired() {
@@ -458,7 +494,7 @@ func runC08(r *ev.Run) {
 	r.Set("race_pass", raceInfo)
 	r.Set("distinct_outcomes", map[string]int64{"hard_twins_that_aborted": counters[2].Load()})
 	r.Set("exhaustive", false)
-	r.Set("rule", "histories: engine-vs-engine games (tables carried over) where every search runs on two identically driven instances (results, reported lines with the time field masked, table/history/generation digests must be equal) and is replayed on a third with a hard budget equal to the nodes used (same result, same state left behind, budget never exceeded); every iteration boundary of a depth-6 search from the root corpus: soft limit firing after iteration j vs hard budget n_j, plus a follow-up search on both; further games under hard budgets that cut every search mid-iteration (37..9000 nodes) or before any iteration completes (1..20 nodes, the fallback move path), twins must agree; after every game, after searches cut between two iteration boundaries and after 255/256/257/512/513 searches (the generation counter is 8 bits wide), Clear() must leave an instance that answers like a fresh one; half of the games call the search without WithCounters (as the UCI driver does); a pondering search with a hard budget stopped from outside never counts more than the budget; schedules: all games replayed on free-running goroutines must reproduce the sequential transcripts (complementary: the same body under the race detector); two instances interleaved at every poll of the instrumented search within the preemption bound must each reproduce their solo run")
+	r.Set("rule", "histories: engine-vs-engine games (tables carried over) where every search runs on two identically driven instances (results, reported lines with the time field masked, table/history/generation digests must be equal) and is replayed on a third with a hard budget equal to the nodes used (same result, same state left behind, budget never exceeded); every iteration boundary of a depth-6 search from the root corpus: soft limit firing after iteration j vs hard budget n_j, plus a follow-up search on both; further games under hard budgets that cut every search mid-iteration (37..9000 nodes) or before any iteration completes (1..20 nodes, the fallback move path), twins must agree; after every game, after searches cut between two iteration boundaries and after 255/256/257/512/513 searches (the generation counter is 8 bits wide), Clear() must leave an instance that answers like a fresh one; a fourth instance gets every request with no output sink attached (same result, nodes and state); half of the games call the search without WithCounters (as the UCI driver does); a pondering search with a hard budget stopped from outside never counts more than the budget; schedules: all games replayed on free-running goroutines must reproduce the sequential transcripts (complementary: the same body under the race detector); two instances interleaved at every poll of the instrumented search within the preemption bound must each reproduce their solo run")
 	r.Assume("state left behind observed through the verif digests (table bytes, history tables, generation) and behaviourally by the following searches of the same game")
 }
 
